@@ -12,7 +12,7 @@
 EXTENDS Integers, Sequences, FiniteSets, TLC, Json
 
 CONSTANTS MaxChan, MaxCell, MaxLazy, MaxThread, MaxSteps, Ideal, Emit,
-          ResumeFailed   \* FALSE: resuming a thread which died with an error is left unspecified (no such step)
+          ResumeFailed   \* TRUE: a thread which died with an error may be resumed again and answers like a finished one (FALSE leaves that step out: before the repair a08a2bf in /repo the VM panicked there)
 
 Val   == 1..2
 Chan  == 1..MaxChan
